@@ -3,7 +3,7 @@
 # Confirms a seeded change in a fresh scratch worktree of /repo HEAD:
 #   suite passes with the change, demo fails with it, demo passes without it.
 set -u
-NAME=$1; PATCH=$2; DEMO=$3
+NAME=$1; PATCH=$2; DEMO=$3; EXTRA=${4:-}
 WT=/tmp/cf-$NAME
 OUT=/tmp/cf-$NAME.log
 rm -rf $WT; git -C /repo worktree prune
@@ -16,10 +16,10 @@ echo "== suite with change (demo not present)"
 cargo test --workspace --no-fail-fast --offline 2>&1 | grep -E "^test result|FAILED|failed|error" | sort | uniq -c | grep -v " ok\. " ; echo "suite_rc_pipe=${PIPESTATUS[0]}"
 cp $DEMO $WT/conformance-tests/tests/seeded_demo.rs
 echo "== demo with change"
-cargo test -p conformance-tests --test seeded_demo --offline 2>&1 | grep -E "^test |^test result" | tail -15
+cargo test -p conformance-tests --test seeded_demo --offline $EXTRA 2>&1 | grep -E "^test |^test result" | tail -15
 echo "== demo without change"
 git apply -R $PATCH
-cargo test -p conformance-tests --test seeded_demo --offline 2>&1 | grep -E "^test |^test result" | tail -15
+cargo test -p conformance-tests --test seeded_demo --offline $EXTRA 2>&1 | grep -E "^test |^test result" | tail -15
 } > $OUT 2>&1
 cd /; git -C /repo worktree remove --force $WT
 echo "done $NAME"; cat $OUT
